@@ -30,6 +30,8 @@ type Cluster struct {
 	Dir   string
 	Env   []string // extra environment for every node (hooks: VERIF_SNAPCOUNT, ...)
 	peers []string // raft URLs by node id-1 (what every node is told about the others)
+	// Net is the layer of link forwarders between the nodes' Raft transports (nil unless ClusterOptions.Links).
+	Net *LinkNet
 }
 
 // ClusterOptions configure StartCluster.
@@ -39,6 +41,9 @@ type ClusterOptions struct {
 	// PeerURL, if set, returns the URL node `from` must use to reach node `to` (link proxies);
 	// the default is the real raft listener of `to`.
 	PeerURL func(from, to int, real string) string
+	// Links: every node reaches every other node through a forwarder of its own (Cluster.Net), so links
+	// can be cut, black-holed and delayed.
+	Links bool
 	// NodeEnv, if set, returns extra environment for node id (in addition to Env).
 	NodeEnv func(id int, dir string) []string
 }
@@ -67,12 +72,23 @@ func StartCluster(o ClusterOptions) (*Cluster, error) {
 		c.Nodes = append(c.Nodes, nd)
 		c.peers = append(c.peers, fmt.Sprintf("http://127.0.0.1:%d", rp))
 	}
+	if o.Links {
+		c.Net = NewLinkNet()
+	}
 	for _, nd := range c.Nodes {
 		urls := make([]string, len(c.Nodes))
 		for j := range c.Nodes {
 			urls[j] = c.peers[j]
 			if o.PeerURL != nil && j+1 != nd.ID {
 				urls[j] = o.PeerURL(nd.ID, j+1, c.peers[j])
+			}
+			if c.Net != nil && j+1 != nd.ID {
+				u, err := c.Net.Add(nd.ID, j+1, fmt.Sprintf("127.0.0.1:%d", c.Nodes[j].RaftPort))
+				if err != nil {
+					c.Stop()
+					return nil, err
+				}
+				urls[j] = u
 			}
 		}
 		if err := c.writeConfig(nd, urls, false); err != nil {
@@ -234,6 +250,9 @@ func (c *Cluster) WaitServing(d time.Duration, ids []int) error {
 func (c *Cluster) Stop() {
 	for _, nd := range c.Nodes {
 		c.Kill(nd.ID)
+	}
+	if c.Net != nil {
+		c.Net.Close()
 	}
 	if keep := os.Getenv("VERIF_KEEP_CLUSTER"); keep != "" { // debugging aid: keep the node directories
 		_ = os.RemoveAll(keep)
